@@ -54,6 +54,12 @@ CHECKS = {
             'next_section up to two past the end; oracle: token/line bookkeeping and CPython linenos',
             'Every bounded (file, operation sequence) is executed; chunk contents, concatenation, whole-file line numbers of '
             'every syntax/TIFA/runtime feedback and traceback line, past-the-end behaviour and restoration are checked.', '2/C17'),
+    'C04': ('exhaustive product of 54 termination modes (every mapped exception class, user classes with broken __str__/__repr__, '
+            'exits, recursion, blocked builtins/modules, compile failures incl. non-SyntaxError ones, exceptions travelling '
+            'through student cleanup code) x 6 entry points (run, run(code), call, evaluate, import of a helper file, bad '
+            'expression) x threaded x tracer style on the real Sandbox; oracle: plain CPython execution of the same source',
+            'Every combination in the finite alphabet is executed; containment, get_exception(), exactly one runtime feedback '
+            'naming the class, and the student line are compared with a plain-CPython reference run.', '2/C04'),
 }
 
 PENDING = ['C02', 'C03', 'C04', 'C05', 'C06', 'C07', 'C08', 'C09', 'C10', 'C11', 'C12', 'C13', 'C14', 'C15',
